@@ -9,6 +9,7 @@ mod ops_seq;
 mod ops_io;
 mod ops_token;
 mod ops_float;
+mod ops_serde;
 
 #[global_allocator]
 static GLOBAL: ops_seq::Counting = ops_seq::Counting;
@@ -39,6 +40,10 @@ fn handler(op: &str) -> Option<Handler> {
         "FRT64" => Some(ops_float::frt64_handler),
         "F16EBLK" => Some(ops_float::f16eblk_handler),
         "F16EORA" => Some(ops_float::f16eora_handler),
+        "SER" => Some(ops_serde::ser_handler),
+        "DE" => Some(ops_serde::de_handler),
+        "X18" => Some(ops_serde::x18_handler),
+        "XR" => Some(ops_serde::xr_handler),
         "TK" => Some(ops_token::tk_handler),
         "TKE" => Some(ops_token::tke_handler),
         "DP" => Some(ops_token::dp_handler),
